@@ -18,7 +18,8 @@ EXPLANATION = (
     'sets clean_exit and breaks the loop, and main returns success iff clean_exit; (MPT.2) the line '
     'buffer is freed exactly once per iteration and nothing derived from it is used afterwards; (UAR) no '
     'request pointer is used after a call that may retire it; (GRD.1) the dispatch is reached only with '
-    'a freshly looked-up request or a deliberate NULL, and the switch has no emitting default.  These are '
+    'a freshly looked-up request or a deliberate NULL, and the switch has no emitting default; (WMC.1) the '
+    'input buffer is only ever filled by evbuffer_read and drained by the line splitter.  These are '
     'necessary conditions of the property; memory safety in general, termination and chunking '
     'independence are NOT decided.')
 ASSUMPTIONS = [
@@ -283,7 +284,30 @@ def junk_inert(P, R):
             R.obligations[-1]['function'] = fn.name
 
 
+def input_buffer(P, R):
+    """WMC.1: bytes leave the input buffer only as complete lines.  Every call that is handed the
+    input evbuffer (the global, or the reader's callback datum) is one of: the filler
+    (evbuffer_read), the line splitter (evbuffer_readln), creation/registration/destruction."""
+    fn = reader(P)
+    allowed = {'evbuffer_read', 'evbuffer_readln', 'evbuffer_free', 'event_new', 'evbuffer_new'}
+    # the buffer object: the evbuffer global of the reader's unit, and the reader's datum parameter
+    names = {g for g, lst in P.globals.items() for (u, gd) in lst if u == fn.unit and 'struct evbuffer' in gd.get('t', '')}
+    datum = fn.params[2] if len(fn.params) > 2 else None
+    n = 0
+    for f in P.unit_fns(fn.unit):
+        for s in f.calls():
+            hit = [a for a in s.ev['args'] if (is_var(a) and (a['name'] in names or (f is fn and a['name'] == datum)))]
+            if not hit:
+                continue
+            n += 1
+            cal = s.ev.get('callee')
+            R.ob('C08.WMC.1', cal in allowed, s, 'input buffer handed to %s: input bytes leave the buffer only as complete lines (allowed: %s)'
+                 % (cal, sorted(allowed)), key='inbuf:%s' % cal, nontrivial=False)
+    R.floor('C08.WMC.1', 3, 'uses of the input evbuffer')
+
+
 def run(P, R, tier):
+    input_buffer(P, R)
     nullarg(P, R)
     tokenizer(P, R)
     bnd.check_scope(P, R, 'C08.BND.2', bnd.reader_scope(P))
